@@ -25,7 +25,7 @@ PANIC_CFGS = [({1}, "0x01"), ({1}, "0x01"), ({0x11, 0x32}, "0x11,0x32"), (set(),
 
 def case(seed, idx, res, tier):
     rng = random.Random(f"c03-{seed}-{idx}")
-    spec, setup, tests = testgen.gen_contract(rng, 3)
+    spec, setup, tests = testgen.gen_contract(rng, 3, force_first=testgen.ALL_KINDS[idx % len(testgen.ALL_KINDS)])
     solver = "z3" if rng.random() < 0.12 else "yices"
     layout = rng.choice(["solidity", "solidity", "generic"])
     codes, codes_str = rng.choice(PANIC_CFGS)
